@@ -38,11 +38,16 @@
    9. the tiling of the prover messages (`prover_messages_tile`), for arbitrary line lists: `tiles_total_bytes`,
       `tiles_concat`, `removed_message_fails`, `swapped_messages_fail`, `shifted_range_fails`
       (`duplicated_message_fails`, `tiles_step`, `tiles_skip` in section 1).
+  10. the two readings of a message line agree: `parseLine_values_ne_nil` (a message carries at least one value),
+      `lineRange?_of_parseLine` (it has a range: the "malformed prover message (range)" branch of `tiles` is dead,
+      `tiles_message_line`), hence `removed_message_fails'`, `swapped_messages_fail'`, `duplicated_message_fails'`
+      without the `values ≠ []` hypotheses.
    Non-vacuity: `example_loads` (kernel-checked, from the recorded values), `#guard`s on the JSON text in
    `Proofs/LoaderExample.lean` (Lean's JSON parser is `partial`, so the text level is checked by evaluation).
 -/
 import Swiftness.Proofs.LoaderExample
 import Swiftness.Proofs.LoaderTiles
+import Swiftness.Proofs.LoaderLines
 
 namespace Swiftness.C19
 
@@ -399,5 +404,70 @@ example :
      threeLines_tile (by decide +kernel) (by decide) (by decide +kernel),
    shifted_range_fails (l1 := [_]) (it := ⟨.traceCommit 1, .hash, [0x12]⟩) (it' := ⟨.traceCommit 1, .hash, [0x12]⟩)
      threeLines_tile (by decide +kernel) (by decide +kernel) rfl (by decide +kernel)⟩
+
+/-! ## 10. the two readings of a message line agree (`Proofs/LoaderLines.lean`)
+
+  `tiles` reads every message line twice: `parseLine` (the item) and `lineRange?` (the byte range).  A line that
+  `parseLine` accepts as a message always carries at least one value and always has a range, so the hypotheses
+  `it.values ≠ []` of section 9 are superfluous and the "malformed prover message (range)" branch of `tiles` is
+  dead. -/
+
+/-- a parsed prover message carries at least one value (one for `Hash` / `Field Element` / `Data`; for
+    `Field Elements` one per comma-separated piece, and there is at least one piece) -/
+theorem parseLine_values_ne_nil {s : String} {it : Item} (h : parseLine s = .ok (some it)) :
+    it.values ≠ [] :=
+  Loader.parseLine_values_ne_nil h
+
+/-- a line that `parseLine` accepts as a message has a byte range: the second reading cannot fail -/
+theorem lineRange?_of_parseLine {s : String} {it : Item} (h : parseLine s = .ok (some it)) :
+    ∃ a b, lineRange? s = some (a, b) :=
+  Loader.lineRange?_of_parseLine h
+
+/-- `tiles` on a message line, the dead branch removed: the line has a range `[x:y]`; the check continues from `y`
+    when `x` is the cursor and `y = x + 32·(number of values)`, and fails otherwise -/
+theorem tiles_message_line {s : String} (rest : List String) (a : Nat) {it : Item}
+    (hl : parseLine s = .ok (some it)) :
+    ∃ x y, lineRange? s = some (x, y) ∧
+      ((x = a ∧ x + 32 * it.values.length = y) → tiles (s :: rest) a = tiles rest y) ∧
+      (¬ (x = a ∧ x + 32 * it.values.length = y) → ∃ e, tiles (s :: rest) a = .error e) :=
+  Loader.tiles_cons_some rest a hl
+
+/-- `removed_message_fails` for EVERY message line `s` (no hypothesis on its values) -/
+theorem removed_message_fails' {l1 l2 : List String} {s : String} {a n : Nat} {it : Item}
+    (h : tiles (l1 ++ s :: l2) a = .ok n) (hl : parseLine s = .ok (some it))
+    (hm : ∃ t it', t ∈ l2 ∧ parseLine t = .ok (some it')) :
+    ∃ e, tiles (l1 ++ l2) a = .error e :=
+  removed_message_fails h hl (parseLine_values_ne_nil hl) hm
+
+/-- `swapped_messages_fail` for EVERY two adjacent message lines -/
+theorem swapped_messages_fail' {l1 l2 : List String} {s t : String} {a n : Nat} {is it : Item}
+    (h : tiles (l1 ++ s :: t :: l2) a = .ok n) (hs : parseLine s = .ok (some is))
+    (ht : parseLine t = .ok (some it)) :
+    ∃ e, tiles (l1 ++ t :: s :: l2) a = .error e :=
+  swapped_messages_fail h hs (parseLine_values_ne_nil hs) ht
+
+/-- `duplicated_message_fails` for EVERY message line: a stream in which a message line is immediately repeated
+    never tiles -/
+theorem duplicated_message_fails' (s : String) (rest : List String) (next : Nat) (it : Item)
+    (hl : parseLine s = .ok (some it)) : ∃ e, tiles (s :: s :: rest) next = .error e :=
+  duplicated_message_fails s rest next it hl (parseLine_values_ne_nil hl)
+
+/-- non-vacuity: the example of section 9 again, without the value hypotheses -/
+example :
+    (∃ e, tiles ["P->V[0:32]: /cpu air/STARK/Original/Commit on Trace: Commitment: Hash(0x11)",
+                 "P->V[64:96]: /cpu air/STARK/Out Of Domain Sampling/Commit on Trace: Commitment: Hash(0x13)"] 0
+            = .error e) ∧
+    (∃ e, tiles ["P->V[32:64]: /cpu air/STARK/Interaction/Commit on Trace: Commitment: Hash(0x12)",
+                 "P->V[0:32]: /cpu air/STARK/Original/Commit on Trace: Commitment: Hash(0x11)",
+                 "P->V[64:96]: /cpu air/STARK/Out Of Domain Sampling/Commit on Trace: Commitment: Hash(0x13)"] 0
+            = .error e) ∧
+    (∃ e, tiles ["P->V[0:32]: /cpu air/STARK/Original/Commit on Trace: Commitment: Hash(0x11)",
+                 "P->V[0:32]: /cpu air/STARK/Original/Commit on Trace: Commitment: Hash(0x11)"] 0
+            = .error e) :=
+  ⟨removed_message_fails' (l1 := [_]) (it := ⟨.traceCommit 1, .hash, [0x12]⟩) threeLines_tile
+     (by decide +kernel) ⟨_, ⟨.traceCommit 2, .hash, [0x13]⟩, List.mem_singleton.2 rfl, by decide +kernel⟩,
+   swapped_messages_fail' (l1 := []) (is := ⟨.traceCommit 0, .hash, [0x11]⟩) (it := ⟨.traceCommit 1, .hash, [0x12]⟩)
+     threeLines_tile (by decide +kernel) (by decide +kernel),
+   duplicated_message_fails' _ [] 0 ⟨.traceCommit 0, .hash, [0x11]⟩ (by decide +kernel)⟩
 
 end Swiftness.C19
